@@ -448,7 +448,7 @@ Lemma get_cases s f :
      get s f = (set_sinks (set_next (set_next s None) (Some (length (sinks s)))) (sinks s ++ [SIdle]),
                 GWait (length (sinks s)), [Create (length (sinks s)); OpenUnder (length (sinks s))])))).
 Proof.
-  destruct s as [nx rc sk wt nt]. unfold get, create. cbn [next sinks set_next set_sinks refc waiting ntask].
+  destruct s as [nx rc sk wt sp nt]. unfold get, create. cbn [next sinks set_next set_sinks refc waiting spawned ntask].
   destruct nx as [n|].
   - destruct (nth_error sk n) as [[| |]|] eqn:E.
     + left. eauto.
@@ -467,11 +467,12 @@ Lemma step_sinks s l n :
   closed s n -> closed (fst (step s l)) n.
 Proof.
   unfold closed. intros Hc. pose proof (nth_error_lt _ _ _ Hc) as Hlt.
-  destruct l as [f|f| |m ok|m|t]; cbn [step].
+  destruct l as [f| |t0 f| |m ok|m|t]; cbn [step].
   - destruct (get_cases (bump s) f) as [(k & _ & _ & ->)|[(k & _ & _ & ->)|[(k & _ & _ & ->)|(_ & [(_ & ->)|(_ & ->)])]]];
       cbn; try assumption. rewrite nth_error_snoc_old; assumption.
-  - destruct (refc (set_refc (bump s) (refc s + 1)) >? 1)%Z; [exact Hc|].
-    destruct (get_cases (set_refc (bump s) (refc s + 1)) f)
+  - destruct (refc (set_refc (bump s) (refc s + 1)) >? 1)%Z; exact Hc.
+  - destruct (existsb (Nat.eqb t0) (spawned s)); [|exact Hc].
+    destruct (get_cases (set_spawned s (filter (fun x => negb (Nat.eqb x t0)) (spawned s))) f)
       as [(k & _ & _ & ->)|[(k & _ & _ & ->)|[(k & _ & _ & ->)|(_ & [(_ & ->)|(_ & ->)])]]];
       cbn; try assumption. rewrite nth_error_snoc_old; assumption.
   - cbn [next set_refc refc]. destruct (next s) as [k|]; [|exact Hc].
@@ -489,7 +490,7 @@ Qed.
 
 Lemma step_inv s l : inv s -> inv (fst (step s l)).
 Proof.
-  intros I. destruct l as [f|f| |m ok|m|t]; cbn [step].
+  intros I. destruct l as [f| |t0 f| |m ok|m|t]; cbn [step].
   - assert (Ib : inv (bump s)) by (revert I; apply inv_ext; reflexivity).
     destruct (get_cases (bump s) f) as [(k & _ & _ & ->)|[(k & _ & _ & ->)|[(k & _ & _ & ->)|(Hc & [(_ & ->)|(_ & ->)])]]];
       cbn [fst].
@@ -498,9 +499,9 @@ Proof.
     + exact Ib.
     + apply inv_dropped, inv_allclosed; assumption.
     + eapply inv_ext; [| |apply (inv_fresh (bump s)), inv_allclosed; assumption]; reflexivity.
-  - set (s0 := set_refc (bump s) (refc s + 1)).
+  - destruct (refc (set_refc (bump s) (refc s + 1)) >? 1)%Z; cbn [fst]; (revert I; apply inv_ext; reflexivity).
+  - destruct (existsb (Nat.eqb t0) (spawned s)); [|exact I]. set (s0 := set_spawned s (filter (fun x => negb (Nat.eqb x t0)) (spawned s))).
     assert (Ib : inv s0) by (revert I; apply inv_ext; reflexivity).
-    destruct (refc s0 >? 1)%Z; [exact Ib|].
     destruct (get_cases s0 f) as [(k & _ & _ & ->)|[(k & _ & _ & ->)|[(k & _ & _ & ->)|(Hc & [(_ & ->)|(_ & ->)])]]];
       cbn [fst].
     + revert Ib. apply inv_ext; reflexivity.
@@ -538,14 +539,14 @@ Qed.
 Lemma step_create s l m :
   inv s -> In (Create m) (snd (step s l)) -> allclosed s /\ m = length (sinks s).
 Proof.
-  intros I. destruct l as [f|f| |k ok|k|t]; cbn [step].
+  intros I. destruct l as [f| |t0 f| |k ok|k|t]; cbn [step].
   - assert (Ib : inv (bump s)) by (revert I; apply inv_ext; reflexivity).
     destruct (get_cases (bump s) f) as [(k & _ & _ & ->)|[(k & _ & _ & ->)|[(k & _ & _ & ->)|(Hc & [(_ & ->)|(_ & ->)])]]];
       cbn [snd app]; intros H; repeat (destruct H as [H|H]; try discriminate); try contradiction.
     inversion H; subst. split; [|reflexivity]. apply (inv_allclosed (bump s)); assumption.
-  - set (s0 := set_refc (bump s) (refc s + 1)).
+  - destruct (refc (set_refc (bump s) (refc s + 1)) >? 1)%Z; cbn; [intros [H|[]]; discriminate | intros []].
+  - destruct (existsb (Nat.eqb t0) (spawned s)); [|intros []]. set (s0 := set_spawned s (filter (fun x => negb (Nat.eqb x t0)) (spawned s))).
     assert (Ib : inv s0) by (revert I; apply inv_ext; reflexivity).
-    destruct (refc s0 >? 1)%Z; [intros [H|[]]; discriminate|].
     destruct (get_cases s0 f) as [(k & _ & _ & ->)|[(k & _ & _ & ->)|[(k & _ & _ & ->)|(Hc & [(_ & ->)|(_ & ->)])]]];
       cbn [snd app]; intros H; repeat (destruct H as [H|H]; try discriminate); try contradiction.
     inversion H; subst. split; [|reflexivity]. apply (inv_allclosed s0); assumption.
@@ -567,12 +568,12 @@ Qed.
 Lemma step_forward s l c n :
   In (Forward c n) (snd (step s l)) -> next (fst (step s l)) = Some n.
 Proof.
-  destruct l as [f|f| |k ok|k|t]; cbn [step].
+  destruct l as [f| |t0 f| |k ok|k|t]; cbn [step].
   - destruct (get_cases (bump s) f) as [(k & _ & _ & ->)|[(k & Hn & _ & ->)|[(k & _ & _ & ->)|(Hc & [(_ & ->)|(_ & ->)])]]];
       cbn [fst snd app]; intros H; repeat (destruct H as [H|H]; try discriminate); try contradiction.
     inversion H; subst. exact Hn.
-  - set (s0 := set_refc (bump s) (refc s + 1)).
-    destruct (refc s0 >? 1)%Z; [intros [H|[]]; discriminate|].
+  - destruct (refc (set_refc (bump s) (refc s + 1)) >? 1)%Z; cbn; [intros [H|[]]; discriminate | intros []].
+  - destruct (existsb (Nat.eqb t0) (spawned s)); [|intros []]. set (s0 := set_spawned s (filter (fun x => negb (Nat.eqb x t0)) (spawned s))).
     destruct (get_cases s0 f) as [(k & _ & _ & ->)|[(k & _ & _ & ->)|[(k & _ & _ & ->)|(Hc & [(_ & ->)|(_ & ->)])]]];
       cbn [snd app]; intros H; repeat (destruct H as [H|H]; try discriminate); contradiction.
   - cbn [next set_refc refc]. destruct (next s); [destruct (refc s - 1 <=? 0)%Z|]; cbn;
@@ -594,12 +595,12 @@ Qed.
 Lemma step_mentions s l o m :
   In o (snd (step s l)) -> obs_sink o = Some m -> next s = Some m \/ m = length (sinks s).
 Proof.
-  destruct l as [f|f| |k ok|k|t]; cbn [step].
+  destruct l as [f| |t0 f| |k ok|k|t]; cbn [step].
   - destruct (get_cases (bump s) f) as [(k & Hn & _ & ->)|[(k & Hn & _ & ->)|[(k & _ & _ & ->)|(Hc & [(_ & ->)|(_ & ->)])]]];
       cbn [fst snd app]; intros H Ho; repeat (destruct H as [H|H]; try subst o); try contradiction;
       cbn in Ho; try discriminate; inversion Ho; subst; auto.
-  - set (s0 := set_refc (bump s) (refc s + 1)).
-    destruct (refc s0 >? 1)%Z; [intros [H|[]] Ho; subst o; discriminate|].
+  - destruct (refc (set_refc (bump s) (refc s + 1)) >? 1)%Z; cbn; [intros [H|[]] Ho; subst o; discriminate | intros []].
+  - destruct (existsb (Nat.eqb t0) (spawned s)); [|intros []]. set (s0 := set_spawned s (filter (fun x => negb (Nat.eqb x t0)) (spawned s))).
     destruct (get_cases s0 f) as [(k & Hn & _ & ->)|[(k & Hn & _ & ->)|[(k & _ & _ & ->)|(Hc & [(_ & ->)|(_ & ->)])]]];
       cbn [fst snd app]; intros H Ho; repeat (destruct H as [H|H]; try subst o); try contradiction;
       cbn in Ho; try discriminate; inversion Ho; subst; auto.
@@ -622,11 +623,11 @@ Qed.
 (* next_sink after a step: unchanged, None, or the sink created in this step *)
 Lemma step_next s l : step_next_ok s (fst (step s l)) /\ length (sinks s) <= length (sinks (fst (step s l))).
 Proof.
-  unfold step_next_ok. destruct l as [f|f| |k ok|k|t]; cbn [step].
+  unfold step_next_ok. destruct l as [f| |t0 f| |k ok|k|t]; cbn [step].
   - destruct (get_cases (bump s) f) as [(k & Hn & _ & ->)|[(k & Hn & _ & ->)|[(k & _ & _ & ->)|(Hc & [(_ & ->)|(_ & ->)])]]];
       cbn; try rewrite app_length; cbn; auto; split; auto; lia.
-  - set (s0 := set_refc (bump s) (refc s + 1)).
-    destruct (refc s0 >? 1)%Z; [cbn; auto|].
+  - destruct (refc (set_refc (bump s) (refc s + 1)) >? 1)%Z; cbn; auto.
+  - destruct (existsb (Nat.eqb t0) (spawned s)); [|cbn; auto]. set (s0 := set_spawned s (filter (fun x => negb (Nat.eqb x t0)) (spawned s))).
     destruct (get_cases s0 f) as [(k & Hn & _ & ->)|[(k & Hn & _ & ->)|[(k & _ & _ & ->)|(Hc & [(_ & ->)|(_ & ->)])]]];
       cbn; try rewrite app_length; cbn; auto; split; auto; lia.
   - cbn [next set_refc refc]. destruct (next s) as [j|] eqn:En; [destruct (refc s - 1 <=? 0)%Z|]; cbn;
